@@ -504,14 +504,41 @@ Proof.
   destruct l; [apply simple_fail|]. apply simple_seq_all_map. intros item. destruct item; try apply simple_fail. apply Hs.
 Qed.
 
+Lemma simple_struct_dict : forall v20 v, simple (struct_dict v20 v).
+Proof.
+  intros. unfold struct_dict.
+  destruct v; try apply simple_may;
+    (destruct (as_dict _) as [[dm fl]|]; [|apply simple_fail];
+     destruct fl; destruct dm; try apply simple_fail;
+     match goal with |- simple (if ?b then _ else _) => destruct b end; [apply simple_ret|apply simple_fail]).
+Qed.
+
 Lemma simple_struct_extensions : forall exts subf ac v, (forall c m, simple (subf c m)) -> simple (struct_extensions exts subf ac v).
 Proof.
-  intros exts subf ac v Hs. unfold struct_extensions. destruct v; try apply simple_fail; try apply simple_may.
-  apply simple_seq_all_map. intros kv.
-  destruct (find _ exts) as [x|].
-  - destruct (x_cls x); [|apply simple_may]. destruct (snd kv); try apply simple_fail. apply Hs.
-  - destruct (ustr_prefix _ _); [apply simple_may|]. destruct ac; [apply simple_ret|apply simple_fail].
+  intros exts subf ac v Hs. unfold struct_extensions.
+  assert (Hm : forall m, simple (seq_all (map (fun kv : ustring * jvalue =>
+                 match find (fun x => ustr_eqb (x_name x) (fst kv)) exts with
+                 | Some x =>
+                     match x_cls x with
+                     | Some c => match snd kv with
+                                 | JObj em => subf c em
+                                 | _ => fail K_InvalidValueError
+                                 end
+                     | None => may [K_InvalidValueError]
+                     end
+                 | None =>
+                     if ustr_prefix (us "extension-definition--") (fst kv) then may [K_InvalidValueError]
+                     else if ac then ret tt
+                     else fail K_InvalidValueError
+                 end) m))).
+  { intros m. apply simple_seq_all_map. intros kv.
+    destruct (find _ exts) as [x|].
+    - destruct (x_cls x); [|apply simple_may]. destruct (snd kv); try apply simple_fail. apply Hs.
+    - destruct (ustr_prefix _ _); [apply simple_may|]. destruct ac; [apply simple_ret|apply simple_fail]. }
+  destruct v; try apply simple_may; (destruct (as_dict _) as [[dm fl]|]; [|apply simple_fail]; destruct fl; [apply simple_may|apply Hm]).
 Qed.
+
+
 
 Lemma simple_struct_objects : forall ver20 ac parsef v, simple (struct_objects ver20 ac parsef v).
 Proof.
@@ -527,10 +554,12 @@ Qed.
 
 Lemma simple_struct_observables : forall ac pof v, simple (struct_observables ac pof v).
 Proof.
-  intros. unfold struct_observables. destruct v; try apply simple_fail; try apply simple_may.
-  destruct m; [apply simple_fail|].
-  match goal with |- simple (if ?b then _ else _) => destruct b end; [|apply simple_fail].
-  cbv zeta. apply simple_seq_all_map. intros kv. apply simple_wrap_gen.
+  intros. unfold struct_observables.
+  destruct v; try apply simple_may;
+    (destruct (as_dict _) as [[dm fl]|]; [|apply simple_fail];
+     destruct fl; destruct dm; try apply simple_may; try apply simple_fail;
+     match goal with |- simple (if ?b then _ else _) => destruct b end; [|apply simple_fail];
+     cbv zeta; apply simple_seq_all_map; intros kv; apply simple_wrap_gen).
 Qed.
 
 Lemma simple_clean_struct : forall fuel V R strictext refuse classes ac io s ov,
@@ -547,6 +576,7 @@ Proof.
   - apply simple_struct_extensions. intros c m. apply simple_wrap_gen.
   - apply simple_struct_objects.
   - apply simple_struct_observables.
+  - apply simple_struct_dict.
 Qed.
 
 Lemma simple_ok : forall V m, simple m -> ok V m.
